@@ -96,6 +96,23 @@ def rules():
           (fn('const int K = 5; g(K + K);', pre='empty g(byte x) { } empty g(string s) { }'), False)]
     R += [(t, False) for t in frontend.empty_value_programs()]
     R += scope_rules()
+    R += spec_rules()
+    return R
+
+
+def spec_rules():
+    """`L ?? R`: L must be int, byte or bool, and R must be *implicitly* coercible to the type of L (no narrowing of a
+    non-literal int, nothing to or from bool) - every argument form of ARGS on the right of every scalar on the left"""
+    R = []
+    pre = ('const int K = 7;\nempty @is_you() { int iv = 3; byte bv = 4; bool tv = true; const byte[] cb = "ab"; byte[] mb = [1]; '
+           'const int[] ci = [1]; int[] mi = [2]; string sv = "s"; ')
+    lefts = [('iv', 'int'), ('bv', 'byte'), ('tv', 'bool'), ('(iv + 1)', 'int'), ('(iv is byte)', 'byte'), ('(iv > 2)', 'bool')]
+    for ltxt, lty in lefts:
+        for arg in ARGS + [('tv', 'bool', False), ('sv', 'string', False), ('(iv > 1)', 'bool', False), ('300', 'int', True), ('(iv is bool)', 'bool', False)]:
+            ok = coercible(arg, lty)
+            R.append((pre + '%s x = %s ?? %s; }' % (lty, ltxt, arg[0]), ok))
+    for ltxt in ('sv', 'mi', 'cb', '"s"', '[1, 2]'):
+        R.append((pre + 'int x = (%s ?? %s).length; }' % (ltxt, ltxt), False))
     return R
 
 
